@@ -38,6 +38,7 @@ type Task struct {
 	goid   int64
 	site   int
 	done   bool
+	locks  int // critical sections the task is inside (never parked there)
 	Points int // scheduling points passed (task-private, read after the run)
 }
 
@@ -92,7 +93,7 @@ func Point(site int) {
 		return
 	}
 	t.budget--
-	if t.budget > 0 {
+	if t.budget > 0 || t.locks > 0 {
 		return
 	}
 	if curGoid() != t.goid {
@@ -101,6 +102,19 @@ func Point(site int) {
 	t.Points++
 	t.site = site
 	park(t)
+}
+
+// Lock is told when the running task enters (+1) or leaves (-1) a critical section of the library
+// (generated around Mutex/RWMutex Lock..Unlock and Once.Do): a task is never parked inside one.
+//
+//go:norace
+func Lock(delta int) {
+	if t := running; t != nil {
+		t.locks += delta
+		if t.locks < 0 {
+			t.locks = 0
+		}
+	}
 }
 
 func park(t *Task) {
@@ -131,7 +145,7 @@ func (s *Sched) Run() error {
 		s.MaxSteps = 5_000_000
 	}
 	if s.Watchdog <= 0 {
-		s.Watchdog = 20 * time.Second
+		s.Watchdog = 10 * time.Second
 	}
 	var wg sync.WaitGroup
 	for _, t := range s.Tasks {
@@ -153,6 +167,15 @@ func (s *Sched) Run() error {
 	}
 	timer := time.NewTimer(s.Watchdog)
 	defer timer.Stop()
+	resetTimer := func() {
+		if !timer.Stop() {
+			select {
+			case <-timer.C:
+			default:
+			}
+		}
+		timer.Reset(s.Watchdog)
+	}
 	last := -1
 	for steps := 0; ; steps++ {
 		var live []int
@@ -189,6 +212,9 @@ func (s *Sched) Run() error {
 			}
 		}
 		setRunning(t, d.Budget)
+		if steps%64 == 0 {
+			resetTimer() // the watchdog bounds the time between two parks, not the length of the phase
+		}
 		hide()
 		t.resume <- struct{}{}
 		timedOut := false
